@@ -1,13 +1,15 @@
 (* C08 — float / mixed optimisation returns a feasible point at the true optimum.  PROOF-PARTIAL: only the DISPATCH is a
    Coq object (Model/FloatDispatch.v: which optimiser answers), extracted and compared with the implementation through hook
-   H5; the optimisers themselves (optimisation fast path, f64 simplex of the root LP step) are not modelled, and the
+   H5; the optimisers themselves (optimisation fast path, f64 simplex of the root LP step) are not modelled -- of the fast path
+   only the ACCEPTANCE of its candidate is (FloatDispatch.fp_accepts, theorem fast_path_answers_are_checked) --, and the
    branch-and-bound over floats is modelled (Model/FloatSearch.v, bit-exact tie) but its optimality is not proved
    (`bb_float_bound` not reached).  The property itself is decided by the check against the VERIFIED exact-rational LP model
    (Properties/C09.v). *)
 From Coq Require Import ZArith Bool List Lia.
 Import ListNotations.
 Require Import Selen.Model.Prelude Selen.Model.Propagate Selen.Model.FloatDispatch.
-Require Import Selen.Proofs.FloatPropsProofs.
+Require Import Selen.Model.B64 Selen.Model.FloatInterval Selen.Model.FloatStore Selen.Model.FloatProps Selen.Model.FloatSearch.
+Require Import Selen.Proofs.FloatPropsProofs Selen.Proofs.FloatSearchProofs.
 
 (* dispatch_model: the root LP step runs only when enabled, with >= 2 variables in the linear system and the objective among them *)
 Theorem dispatch_root_lp_gate : forall lp ps obj, root_lp_gate lp ps obj = true ->
@@ -35,3 +37,41 @@ Example c08_dispatch_inhabited :
   dispatch true true [PFlin RLe [0;1]%nat; PCmp RLe (Some 0%nat) (Some 1%nat)] 0%nat = ByFastPathOrSearch /\
   dispatch true false [PNew RGe [0%nat] false false] 0%nat = BySearchOnly.
 Proof. repeat split; reflexivity. Qed.
+
+(* the fast path's candidate is OPAQUE (any list of values); it becomes the answer of minimize / maximize only through
+   fp_accepts = Model::accepts_candidate.  An accepted answer
+     - gives every variable a value of its kind that lies in its domain,
+     - has passed the ordinary propagation started from the store in which every variable is fixed to it: every
+       propagator of the model was run, none of the runs failed (ran_ok: the propagator's own check on a store it was handed),
+     - attains, within one step, the bound that the propagation of the model itself leaves for the objective.
+   Nothing is assumed about the propagators or about the optimiser that produced the candidate. *)
+Theorem fast_path_answers_are_checked : forall minimize pf ps s obj cand, fp_accepts minimize pf ps s obj cand = true ->
+  exists s0 sf sr,
+    Forall2 in_domain s cand /\ fix_all s cand = Some s0 /\ map var_value s0 = cand /\ map var_max s0 = cand /\
+    fpropagate_all pf ps s0 = FPDone sf /\ (forall p, (p < length ps)%nat -> ran_ok ps p) /\
+    fpropagate_all pf ps s = FPDone sr /\
+    (if minimize then val_le (fv_min obj sf) (val_add (fv_min obj sr) (fp_slack obj s))
+     else val_ge (val_add (fv_max obj sf) (fp_slack obj s)) (fv_max obj sr)) = true.
+Proof. exact fp_accepts_checked. Qed.
+Print Assumptions fast_path_answers_are_checked.
+
+(* a candidate outside a domain, one that some propagator rejects, and a model whose own propagation fails: never accepted *)
+Theorem fast_path_rejections : forall minimize pf ps s obj cand,
+  (fix_all s cand = None \/ (exists s0, fix_all s cand = Some s0 /\ passes_propagation pf ps s0 = None) \/ passes_propagation pf ps s = None) ->
+  fp_accepts minimize pf ps s obj cand = false.
+Proof. exact fp_rejects. Qed.
+Print Assumptions fast_path_rejections.
+
+(* non-vacuity, on the former witness of known finding fast_path: x in [0,10] (precision 6), 4 <= x, minimize x.
+   The fast path's old answer x = 0 is rejected (4 <= x fails on the fixed store); x = 10 is feasible but does not attain
+   the propagated bound 4: rejected; x = 4 is accepted. *)
+Definition w_fp_store : fstore := [VF (mkfi (of_bits 0) (of_bits 0x4024000000000000) (precision_to_step_size 6))].
+Definition w_fp_props : list fprop := [mk_fleq (FConst (VlF (of_bits 0x4010000000000000))) (FVar 0%nat)].
+Example c08_fast_path_acceptance :
+  fp_accepts true 10 w_fp_props w_fp_store (FVar 0%nat) [VlF (of_bits 0)] = false /\
+  fp_accepts true 10 w_fp_props w_fp_store (FVar 0%nat) [VlF (of_bits 0x4024000000000000)] = false /\
+  fp_accepts true 10 w_fp_props w_fp_store (FVar 0%nat) [VlF (of_bits 0x4010000000000000)] = true /\
+  fp_accepts false 10 w_fp_props w_fp_store (FVar 0%nat) [VlF (of_bits 0x4024000000000000)] = true /\
+  fp_accepts true 10 w_fp_props w_fp_store (FVar 0%nat) [VlI 4] = false /\
+  fp_accepts true 10 w_fp_props w_fp_store (FVar 0%nat) [] = false.
+Proof. vm_compute. repeat split; reflexivity. Qed.
